@@ -635,6 +635,7 @@ package gldap
 //@ ghost lastfn Int
 //@ ghost nframes Int
 //@ ghost tlscfg Int
+//@ ghost tlswant Int
 //@ ghost cancelled Bool
 //@ ghost guard Int
 //@ ghost lastok Bool
@@ -662,6 +663,7 @@ package gldap
 //@   sets G_listening[iref(l)] = true when err == nil
 //@   sets G_lclosed[iref(l)] = false when err == nil
 //@   sets G_tlscfg[iref(l)] = 0 when err == nil
+//@   sets G_tlswant[0] = 0
 //@   panics false
 //@ extern crypto/tls.NewListener
 //@   params inner net.Listener, config *tls.Config
@@ -670,6 +672,7 @@ package gldap
 //@   sets G_listening[iref(l)] = G_listening[iref(inner)]
 //@   sets G_lclosed[iref(l)] = G_lclosed[iref(inner)]
 //@   sets G_tlscfg[iref(l)] = config
+//@   sets G_tlswant[0] = config
 //@   panics false
 //@ extern iface:net.Listener.Addr
 //@   params l net.Listener
@@ -734,28 +737,30 @@ package gldap
 //@   sets     G_connclosed[result0] = 0 when err == nil
 //@   panics false
 //@   modifies conn.netConn, conn.reader, conn.writer
-//@   tags C09
+//@   tags C09 C18
 
 //@ func (*gldap.Server).Run$1
 //@   requires s != nil && !isNilIface(s.logger) && conn != nil && connOK(conn) && !isNilIface(c) && localConnID == conn.connID && G_wgcnt[&s.connWg] > 0
 //@   requires G_nread[conn] == 0 && !G_lastunbind[conn] && !G_tlspending[conn] && !held(&conn.mu) && !held(&conn.writerMu) && G_wgcnt[&conn.requestsWg] >= 0
+//@   requires[C18] c == conn.netConn && G_tlscfg[iref(c)] == G_tlswant[0]
 //@   entry    G_role[0] == 2
 //@   exit     G_connclosed[conn] == old(G_connclosed[conn]) + 1 && G_wgcnt[&s.connWg] == old(G_wgcnt[&s.connWg]) - 1
 //@   exit     s.onCloseHandler != nil ==> G_onclose[localConnID] == old(G_onclose[localConnID]) + 1
 //@   panics false when !s.disablePanicRecovery
-//@   tags C08 C07 C09
+//@   tags C08 C07 C09 C18
 //@ func (*gldap.Server).Run
 //@   requires srvOK(s) && !held(&s.mu) && G_maxid[0] == 0 && G_wgcnt[&s.connWg] >= 0
 //@   ensures  !held(&s.mu)
 //@   ensures[C12] err == nil ==> !isNilIface(s.listener) && G_lclosed[iref(s.listener)]
 //@   panics false
-//@   tags C17 C09
+//@   tags C17 C09 C18
 //@ loop 1
 //@   invariant connID == G_maxid[0] && connID >= 0
 //@   invariant srvOK(s)
 //@   invariant !held(&s.mu)
 //@   invariant !isNilIface(s.listener)
 //@   invariant G_wgcnt[&s.connWg] >= 0
+//@   invariant[C18] G_tlswant[0] == opts.withTLSConfig && G_tlscfg[iref(s.listener)] == G_tlswant[0]
 
 //@ extern (*sync.WaitGroup).Add
 //@   params wg *sync.WaitGroup, delta int
@@ -785,7 +790,7 @@ package gldap
 //@   sets G_tonclose[connectionID] = G_clock[0]
 //@   panics false
 
-//@ pure connIO(c *conn) bool = !isNilIface(c.netConn) && c.reader != nil && c.writer != nil && G_guard[c.writer] == &c.writerMu
+//@ pure connIO(c *conn) bool = !isNilIface(c.netConn) && c.reader != nil && c.writer != nil && G_guard[c.writer] == &c.writerMu && G_rsrc[c.reader] == c.netConn && G_wdst[c.writer] == c.netConn
 //@ pure connOK(c *conn) bool = c != nil && connIO(c) && !isNilIface(c.logger) && c.router != nil && muxOK(c.router) && !isNilIface(c.shutdownCtx) && c.connID != 0
 //@ func (*gldap.conn).close
 //@   requires c != nil && !isNilIface(c.netConn)
@@ -1090,7 +1095,7 @@ package gldap
 //@   sets     G_guard[c.writer] = &c.writerMu when result == nil
 //@   panics false
 //@   modifies conn.netConn, conn.reader, conn.writer
-//@   tags C05 C13
+//@   tags C05 C13 C18
 
 // ---- routes (C03) ---------------------------------------------------------------------------------
 //@ pure rbase(r route) *baseRoute = cond(typeIs(r, *baseRoute), r.(*baseRoute), cond(typeIs(r, *searchRoute), r.(*searchRoute).baseRoute, cond(typeIs(r, *simpleBindRoute), r.(*simpleBindRoute).baseRoute,
